@@ -1,8 +1,507 @@
-//! C13 — not built yet.
+//! C13 — UTF-8 validation = Unicode definition on every engine (DESIGN §4 C13).
 use crate::engine::*;
+use crate::gen::text::{self, Defect, Profile};
+use serde_json::json;
+use succinctly::text::utf8::{
+    decode_code_point, encode_code_point, sequence_length, validate_utf8, validate_utf8_broadword, validate_utf8_scalar,
+    validate_utf8_simd, Utf8Error, Utf8ErrorKind,
+};
 
-pub const RULE: &str = "not built";
+pub const RULE: &str = "byte strings = valid mixed-width UTF-8 prefix whose length is steered to B+d (B in {8,16,24,32,64,96,128,160}, d in -5..=4) + one planted defect (overlong C0/C1, E0 80-9F, F0 80-8F; surrogate ED A0-BF; F4 90+; F5-F7; F8-FF; lone continuation; bad continuation at byte 1/2/3; truncation at end / mid) or a boundary-straddling valid character + 0..70 bytes of suffix, optional second defect, LF/CRLF/CR sprinkled into the prefix; plus raw bytes. Oracle: core::str::from_utf8 (valid_up_to) for accept/reject; the four engines (validate_utf8, _simd, _scalar, _broadword) return identical results; the error is in the admissible set for (lead byte, available tail) and line/column = LF count rule when the prefix has no lone CR. Exhaustive: all 1-, 2-, 3-byte inputs (plain and straddling a 32-byte boundary), a 4-byte lead family, every code point 0..=0x110400 for encode/decode. Non-trivial: len>=33 and a multi-byte char or defect within 4 bytes of a 32-byte boundary; distinct by hash(bytes).";
+
+type Engine = (&'static str, fn(&[u8]) -> Result<(), Utf8Error>);
+const ENGINES: [Engine; 4] = [
+    ("validate_utf8", validate_utf8),
+    ("validate_utf8_simd", validate_utf8_simd),
+    ("validate_utf8_scalar", validate_utf8_scalar),
+    ("validate_utf8_broadword", validate_utf8_broadword),
+];
+
+fn seq_len(lead: u8) -> usize {
+    match lead {
+        0x00..=0x7f => 1,
+        0xc0..=0xdf => 2,
+        0xe0..=0xef => 3,
+        0xf0..=0xf7 => 4,
+        _ => 0,
+    }
+}
+
+fn is_cont(b: u8) -> bool {
+    b & 0xc0 == 0x80
+}
+
+fn kind_name(k: Utf8ErrorKind) -> &'static str {
+    match k {
+        Utf8ErrorKind::InvalidLeadByte => "InvalidLeadByte",
+        Utf8ErrorKind::InvalidContinuationByte => "InvalidContinuationByte",
+        Utf8ErrorKind::OverlongEncoding => "OverlongEncoding",
+        Utf8ErrorKind::SurrogateCodepoint => "SurrogateCodepoint",
+        Utf8ErrorKind::OutOfRangeCodepoint => "OutOfRangeCodepoint",
+        Utf8ErrorKind::TruncatedSequence => "TruncatedSequence",
+    }
+}
+
+/// The admissible (kind, offset) pairs for an input whose longest valid prefix is `v`.
+fn admissible(x: &[u8], v: usize) -> Vec<(Utf8ErrorKind, usize)> {
+    let lead = x[v];
+    let n = seq_len(lead);
+    if n == 0 {
+        return vec![(Utf8ErrorKind::InvalidLeadByte, v)];
+    }
+    let avail = n.min(x.len() - v);
+    let bad = (1..avail).find(|&j| !is_cont(x[v + j]));
+    if v + n > x.len() {
+        let mut a = vec![(Utf8ErrorKind::TruncatedSequence, v)];
+        if let Some(j) = bad {
+            a.push((Utf8ErrorKind::InvalidContinuationByte, v + j));
+        }
+        return a;
+    }
+    if let Some(j) = bad {
+        return vec![(Utf8ErrorKind::InvalidContinuationByte, v + j)];
+    }
+    // all n bytes present and continuations: the decoded value breaks exactly one rule
+    let cp = match n {
+        2 => ((lead as u32 & 0x1f) << 6) | (x[v + 1] as u32 & 0x3f),
+        3 => ((lead as u32 & 0x0f) << 12) | ((x[v + 1] as u32 & 0x3f) << 6) | (x[v + 2] as u32 & 0x3f),
+        _ => ((lead as u32 & 0x07) << 18) | ((x[v + 1] as u32 & 0x3f) << 12) | ((x[v + 2] as u32 & 0x3f) << 6) | (x[v + 3] as u32 & 0x3f),
+    };
+    let min = [0, 0, 0x80, 0x800, 0x10000][n];
+    if cp < min {
+        vec![(Utf8ErrorKind::OverlongEncoding, v)]
+    } else if (0xD800..=0xDFFF).contains(&cp) {
+        vec![(Utf8ErrorKind::SurrogateCodepoint, v)]
+    } else if cp > 0x10FFFF {
+        vec![(Utf8ErrorKind::OutOfRangeCodepoint, v)]
+    } else {
+        vec![] // std rejected a sequence this model thinks is fine: reported as a harness/model disagreement
+    }
+}
+
+fn has_lone_cr(x: &[u8], upto: usize) -> bool {
+    (0..upto).any(|i| x[i] == b'\r' && x.get(i + 1) != Some(&b'\n'))
+}
+
+pub fn check_bytes(x: &[u8], st: &mut Stats) -> Result<(), Fail> {
+    let info = || json!({"bytes_hex": hex(&x[..x.len().min(2000)]), "len": x.len(), "bytes": show_bytes(x)});
+    let std_r = core::str::from_utf8(x);
+    let results: Vec<Result<(), Utf8Error>> = ENGINES.iter().map(|(_, f)| f(x)).collect();
+    st.evals(4);
+    for (i, (name, _)) in ENGINES.iter().enumerate() {
+        match (&std_r, &results[i]) {
+            (Ok(_), Err(e)) => {
+                fail!(format!("C13/{}/false-reject", name), {"case": info(), "error": format!("{:?}", e)})
+            }
+            (Err(se), Ok(())) => {
+                fail!(format!("C13/{}/false-accept", name), {"case": info(), "std_valid_up_to": se.valid_up_to()})
+            }
+            _ => {}
+        }
+    }
+    let Err(se) = std_r else { return Ok(()) };
+    let v = se.valid_up_to();
+    let e0 = results[2].as_ref().err().cloned().expect("scalar error");
+    for (i, (name, _)) in ENGINES.iter().enumerate() {
+        let e = results[i].as_ref().err().expect("error");
+        if *e != e0 {
+            fail!(format!("C13/{}/error-differs-from-scalar", name), {"case": info(), "scalar": format!("{:?}", e0), "this": format!("{:?}", e)});
+        }
+    }
+    let adm = admissible(x, v);
+    if !adm.iter().any(|&(k, o)| k == e0.kind && o == e0.offset) {
+        let shape = if e0.offset < v {
+            "offset-before-valid-prefix-end"
+        } else if e0.offset > v && e0.kind != Utf8ErrorKind::InvalidContinuationByte {
+            "offset-past-valid-prefix"
+        } else {
+            "wrong-kind-or-offset"
+        };
+        fail!(format!("C13/error-not-admissible/{}/{}", kind_name(e0.kind), shape), {"case": info(), "std_valid_up_to": v, "error": format!("{:?}", e0), "admissible": format!("{:?}", adm)});
+    }
+    if !has_lone_cr(x, e0.offset) {
+        let pre = &x[..e0.offset];
+        let line = 1 + pre.iter().filter(|&&b| b == b'\n').count();
+        let col = match pre.iter().rposition(|&b| b == b'\n') {
+            Some(p) => e0.offset - (p + 1) + 1,
+            None => e0.offset + 1,
+        };
+        if (line, col) != (e0.line, e0.column) {
+            fail!("C13/line-column-wrong", {"case": info(), "error": format!("{:?}", e0), "expected_line": line, "expected_column": col});
+        }
+        st.evals(1);
+    }
+    Ok(())
+}
+
+/// decode_code_point on an arbitrary slice: first sequence only.
+fn check_decode(x: &[u8], st: &mut Stats) -> Result<(), Fail> {
+    let exp: Option<(u32, usize)> = if x.is_empty() {
+        None
+    } else {
+        let n = seq_len(x[0]);
+        if n == 0 || x.len() < n {
+            None
+        } else {
+            match core::str::from_utf8(&x[..n]) {
+                Ok(s) => s.chars().next().map(|c| (c as u32, n)),
+                Err(_) => None,
+            }
+        }
+    };
+    let act = decode_code_point(x);
+    st.evals(1);
+    if exp != act {
+        let shape = match (exp, act) {
+            (None, Some(_)) => "accepts-malformed",
+            (Some(_), None) => "rejects-wellformed",
+            _ => "wrong-value",
+        };
+        fail!(format!("C13/decode_code_point/{}", shape), {"bytes_hex": hex(x), "expected": format!("{:?}", exp), "actual": format!("{:?}", act)});
+    }
+    Ok(())
+}
+
+// ------------------------------------------------------------------ generator
+
+pub struct Case {
+    pub bytes: Vec<u8>,
+    pub kind: String,
+    /// byte offsets where a defect / straddling char was placed
+    pub sites: Vec<usize>,
+}
+
+const BLOCKS: &[usize] = &[8, 16, 24, 32, 64, 96, 128, 160];
+
+fn sprinkle_breaks(u: &mut Src, v: &mut Vec<u8>) {
+    // overwrite ASCII positions only, so validity is untouched
+    let n = u.below(4);
+    for _ in 0..n {
+        if v.is_empty() {
+            return;
+        }
+        let i = u.below(v.len());
+        if v[i] < 0x80 {
+            match u.below(4) {
+                0 | 1 => v[i] = b'\n',
+                2 => {
+                    v[i] = b'\r';
+                    if i + 1 < v.len() && v[i + 1] < 0x80 {
+                        v[i + 1] = b'\n';
+                    }
+                }
+                _ => v[i] = b'\r',
+            }
+        }
+    }
+}
+
+pub fn gen_case(u: &mut Src, max_suffix: usize) -> Case {
+    let family = u.weighted(&[10, 3, 2, 2]);
+    if family == 2 {
+        // raw bytes, biased to UTF-8-relevant values
+        let n = u.len_biased(200, &[31, 32, 33, 63, 64, 65]);
+        let mut v = Vec::with_capacity(n);
+        for _ in 0..n {
+            v.push(match u.below(6) {
+                0 => u.byte(),
+                1 => 0x80 + u.below(0x40) as u8,
+                2 => *u.pick(&[0xC0, 0xC1, 0xC2, 0xDF, 0xE0, 0xE1, 0xEC, 0xED, 0xEE, 0xEF, 0xF0, 0xF1, 0xF3, 0xF4, 0xF5, 0xF7, 0xF8, 0xFF]),
+                3 => *u.pick(&[0x7f, 0x80, 0x8f, 0x90, 0x9f, 0xA0, 0xBF, 0x0a, 0x0d]),
+                _ => 0x20 + u.below(0x5f) as u8,
+            });
+        }
+        return Case { bytes: v, kind: "raw".into(), sites: vec![] };
+    }
+    let p = *u.pick(&[Profile::AsciiOnly, Profile::AsciiOnly, Profile::Mixed, Profile::MultiByteHeavy, Profile::AnyScalar]);
+    let b = *u.pick(BLOCKS);
+    let d = u.below(10) as isize - 5;
+    let pre_len = if u.ratio(3, 5) { (b as isize + d).max(0) as usize } else { u.range(0, 200) };
+    let mut v = text::valid_filler(u, pre_len, p);
+    sprinkle_breaks(u, &mut v);
+    let mut sites = vec![v.len()];
+    let mut kind;
+    if family == 1 {
+        // valid: a multi-byte character straddling (or next to) the boundary
+        let cl = *u.pick(&[text::CharClass::Latin1, text::CharClass::Bmp3, text::CharClass::Astral, text::CharClass::Special]);
+        let c = text::char_of(u, cl);
+        let mut buf = [0u8; 4];
+        v.extend_from_slice(c.encode_utf8(&mut buf).as_bytes());
+        kind = "valid-straddle".to_string();
+    } else if family == 3 {
+        kind = "valid-plain".to_string();
+    } else {
+        let df = *u.pick(text::DEFECTS);
+        v.extend_from_slice(&text::defect_bytes(u, df));
+        kind = format!("{:?}", df);
+        if df == Defect::TruncatedAtEnd {
+            return Case { bytes: v, kind, sites };
+        }
+    }
+    let sfx = u.len_biased(max_suffix, &[0, 1, 2, 3, 28, 29, 30, 31, 32, 33]);
+    let sp = if u.bool() { p } else { Profile::AsciiOnly };
+    let s = text::valid_filler(u, sfx, sp);
+    v.extend_from_slice(&s);
+    if family == 0 && u.ratio(1, 4) {
+        // a second defect, again steered to a block boundary when possible
+        let target = (v.len() / 32 + 1) * 32;
+        let d2 = u.below(8) as isize - 4;
+        let want = (target as isize + d2).max(v.len() as isize) as usize;
+        let pad = text::valid_filler(u, want - v.len(), Profile::AsciiOnly);
+        v.extend_from_slice(&pad);
+        sites.push(v.len());
+        let df = *u.pick(text::DEFECTS);
+        v.extend_from_slice(&text::defect_bytes(u, df));
+        kind = format!("{}+{:?}", kind, df);
+        if df != Defect::TruncatedAtEnd {
+            let t = u.below(40);
+            let s = text::valid_filler(u, t, Profile::AsciiOnly);
+            v.extend_from_slice(&s);
+        }
+    }
+    Case { bytes: v, kind, sites }
+}
+
+fn near_block_boundary(off: usize) -> bool {
+    let r = off % 32;
+    r <= 4 || r >= 28
+}
+
+fn classify(c: &Case, st: &mut Stats) {
+    let x = &c.bytes;
+    let valid = core::str::from_utf8(x);
+    // non-trivial: len >= 33 and a multi-byte char or a defect within 4 bytes of a 32-byte boundary
+    let mut nt = false;
+    if x.len() >= 33 {
+        nt = x.iter().enumerate().any(|(i, &b)| b >= 0x80 && i >= 27 && near_block_boundary(i));
+    }
+    if nt {
+        st.nontrivial(hash_bytes(x));
+    }
+    st.class_if(nt, "nontrivial");
+    st.class(&format!("kind-{}", c.kind.split('+').next().unwrap_or("")));
+    st.class_if(c.kind.contains('+'), "two-defects");
+    match &valid {
+        Ok(_) => st.class("std-valid"),
+        Err(e) => {
+            st.class("std-invalid");
+            let v = e.valid_up_to();
+            st.class_if(v >= 32, "invalid-after>=32-valid-bytes");
+            st.class_if(v > 0 && x[..v].is_ascii() && v >= 32, "invalid-after>=32-ascii-bytes");
+            st.class_if(x[..v].contains(&b'\n'), "invalid-with-LF-in-prefix");
+            st.class_if(has_lone_cr(x, v), "invalid-with-lone-CR-in-prefix(line/col not asserted)");
+            if x.len() >= 33 && v >= 27 {
+                st.class(&format!("first-defect-at-offset-mod32={:02}", v % 32));
+            }
+            st.class_if(x.len() - v < 4 && seq_len(x[v]) > x.len() - v, "truncated-at-end-of-input");
+        }
+    }
+    st.class_if(x.len() % 32 == 0 && !x.is_empty(), "len-multiple-of-32");
+    st.size(x.len());
+    st.sample(&c.kind, || json!({"kind": c.kind, "len": x.len(), "sites": c.sites, "tail": show_bytes(&x[x.len().saturating_sub(48)..])}));
+}
 
 pub fn run(cx: &mut Ctx) {
-    cx.infra("check not built");
+    cx.assume("trusted base: core::str::from_utf8 (accept/reject and valid_up_to) and char::encode_utf8 of the Rust standard library");
+    cx.assume("'offset = longest valid prefix' is read as DESIGN §4 C13: InvalidContinuationByte may point at the offending byte (documented + unit-tested behaviour of the scalar validator); every other kind must point at valid_up_to");
+    cx.assume("on this host validate_utf8 == validate_utf8_simd (AVX2 detected); the non-AVX2 arm of the dispatcher is the scalar validator, which is checked directly");
+
+    for (name, v) in cx.replays.clone() {
+        if v["kind"] == "input" {
+            let b = unhex(v["input"]["bytes_hex"].as_str().unwrap_or(""));
+            let mut st = Stats::default();
+            let r = check_bytes(&b, &mut st).err().or_else(|| check_decode(&b, &mut st).err());
+            cx.replay_outcome(&name, r);
+        }
+    }
+
+    let max_suffix = if cx.tier == Tier::Quick { 70 } else { 400 };
+    cx.check(
+        "validators-vs-std",
+        RULE,
+        Budget { quick: 3_000_000, thorough: 150_000_000, max_len: 1200 },
+        |u, st| {
+            let c = gen_case(u, max_suffix);
+            classify(&c, st);
+            st.describe(|| json!({"bytes_hex": hex(&c.bytes), "kind": c.kind, "sites": c.sites}));
+            check_bytes(&c.bytes, st)?;
+            // decode_code_point at the planted sites (first sequence only)
+            for &s in &c.sites {
+                if s < c.bytes.len() {
+                    check_decode(&c.bytes[s..], st)?;
+                }
+            }
+            Ok(())
+        },
+    );
+    for r in 0..32 {
+        cx.require_class("validators-vs-std", &format!("first-defect-at-offset-mod32={:02}", r), 30);
+    }
+    for cl in [
+        "std-valid",
+        "std-invalid",
+        "kind-valid-straddle",
+        "kind-raw",
+        "two-defects",
+        "invalid-after>=32-ascii-bytes",
+        "invalid-with-LF-in-prefix",
+        "truncated-at-end-of-input",
+        "len-multiple-of-32",
+        "kind-Overlong2",
+        "kind-Overlong3",
+        "kind-Overlong4",
+        "kind-Surrogate",
+        "kind-TooLargeF4",
+        "kind-TooLargeF5",
+        "kind-InvalidLeadF8",
+        "kind-LoneCont",
+        "kind-BadCont",
+        "kind-TruncatedAtEnd",
+        "kind-TruncatedMid",
+    ] {
+        cx.require_class("validators-vs-std", cl, 50);
+    }
+
+    // ---- exhaustive short inputs, plain and straddling a 32-byte boundary
+    cx.exhaustive(
+        "every-1-2-3-byte-input",
+        "every 1-byte, 2-byte and 3-byte input: plain, and (for inputs with a byte >= 0x80) inside an ASCII frame so that the sequence starts at offset 29, 30, 31 or 32 of a 72-byte buffer, and at the very end of a 32/64-byte buffer; validators vs std + decode_code_point + sequence_length",
+        true,
+        |shard, nshards, st| {
+            let mut frame = vec![b'a'; 72];
+            let total: u32 = 256 + 65536 + (1 << 24);
+            let mut i = shard as u32;
+            while i < total {
+                let (buf, n): ([u8; 3], usize) = if i < 256 {
+                    ([i as u8, 0, 0], 1)
+                } else if i < 256 + 65536 {
+                    let k = i - 256;
+                    ([(k >> 8) as u8, k as u8, 0], 2)
+                } else {
+                    let k = i - 256 - 65536;
+                    ([(k >> 16) as u8, (k >> 8) as u8, k as u8], 3)
+                };
+                let x = &buf[..n];
+                check_bytes(x, st)?;
+                check_decode(x, st)?;
+                st.cases += 1;
+                if n == 1 {
+                    let e = seq_len(x[0]);
+                    check_eq!("C13/sequence_length", e, sequence_length(x[0]), {"byte": x[0]});
+                }
+                // framed variants only where something non-ASCII is involved; 3-byte inputs: those with a non-ASCII first byte
+                if x[0] >= 0x80 || (n < 3 && x.iter().any(|&b| b >= 0x80)) {
+                    for at in [29usize, 30, 31, 32] {
+                        frame[at..at + n].copy_from_slice(x);
+                        let r = check_bytes(&frame, st);
+                        for b in &mut frame[at..at + n] {
+                            *b = b'a';
+                        }
+                        r?;
+                    }
+                    // sequence at the very end of a 32- and a 64-byte buffer (tail handling)
+                    for total_len in [32usize, 64] {
+                        let at = total_len - n;
+                        frame[at..at + n].copy_from_slice(x);
+                        let r = check_bytes(&frame[..total_len], st);
+                        for b in &mut frame[at..at + n] {
+                            *b = b'a';
+                        }
+                        r?;
+                    }
+                    if i % 1021 == 0 {
+                        st.nontrivial(i as u64);
+                    }
+                }
+                i += nshards as u32;
+            }
+            Ok(())
+        },
+    );
+
+    cx.exhaustive(
+        "4-byte-lead-family",
+        "lead F0..=F7 x second byte 0..=255 x third/fourth in {00,7f,80,8f,90,a5,bf,c0,ff}: plain and ending at / straddling offset 32 of an ASCII frame",
+        true,
+        |shard, nshards, st| {
+            let tails = [0x00u8, 0x7f, 0x80, 0x8f, 0x90, 0xa5, 0xbf, 0xc0, 0xff];
+            let mut frame = vec![b'a'; 72];
+            let mut idx = 0usize;
+            for lead in 0xF0u8..=0xF7 {
+                for b1 in 0..=255u8 {
+                    idx += 1;
+                    if idx % nshards != shard {
+                        continue;
+                    }
+                    for &b2 in &tails {
+                        for &b3 in &tails {
+                            let x = [lead, b1, b2, b3];
+                            check_bytes(&x, st)?;
+                            check_decode(&x, st)?;
+                            for at in [28usize, 29, 30, 31, 32] {
+                                frame[at..at + 4].copy_from_slice(&x);
+                                let r = check_bytes(&frame, st);
+                                for b in &mut frame[at..at + 4] {
+                                    *b = b'a';
+                                }
+                                r?;
+                            }
+                            st.cases += 1;
+                        }
+                    }
+                }
+            }
+            Ok(())
+        },
+    );
+
+    cx.exhaustive(
+        "every-code-point-encode-decode",
+        "cp in 0..=0x110400: encode_code_point = char::encode_utf8 for scalar values, None otherwise; decode_code_point(encode(cp)) == (cp,len) also with trailing garbage; validators accept the encoding inside a frame at offsets 30/31",
+        true,
+        |shard, nshards, st| {
+            let mut cp = shard as u32;
+            let mut frame = vec![b'a'; 72];
+            while cp <= 0x110400 {
+                let exp: Option<Vec<u8>> = char::from_u32(cp).map(|c| {
+                    let mut b = [0u8; 4];
+                    c.encode_utf8(&mut b).as_bytes().to_vec()
+                });
+                let act = encode_code_point(cp);
+                let act_v = act.map(|(b, n)| b[..n.min(4)].to_vec());
+                st.evals(1);
+                if exp != act_v {
+                    let shape = match (&exp, &act_v) {
+                        (None, Some(_)) => "encodes-non-scalar",
+                        (Some(_), None) => "rejects-scalar",
+                        _ => "wrong-bytes",
+                    };
+                    fail!(format!("C13/encode_code_point/{}", shape), {"cp": format!("U+{:04X}", cp), "expected": format!("{:02x?}", exp), "actual": format!("{:02x?}", act)});
+                }
+                if let Some((buf, n)) = act {
+                    // unused tail of the 4-byte buffer: the documented examples slice [..len]; decode on exact and padded input
+                    let d = decode_code_point(&buf[..n]);
+                    check_eq!("C13/decode-of-encode", Some((cp, n)), d, {"cp": format!("U+{:04X}", cp)});
+                    let mut padded = buf[..n].to_vec();
+                    padded.extend_from_slice(&[0xff, 0x80]);
+                    let d = decode_code_point(&padded);
+                    check_eq!("C13/decode-of-encode-with-trailing-bytes", Some((cp, n)), d, {"cp": format!("U+{:04X}", cp)});
+                    st.evals(2);
+                    if cp >= 0x80 {
+                        for at in [30usize, 31] {
+                            frame[at..at + n].copy_from_slice(&buf[..n]);
+                            let r = check_bytes(&frame, st);
+                            for b in &mut frame[at..at + n] {
+                                *b = b'a';
+                            }
+                            r?;
+                        }
+                    }
+                }
+                st.cases += 1;
+                cp += nshards as u32;
+            }
+            Ok(())
+        },
+    );
 }
